@@ -13,6 +13,7 @@ INVARIANT LawProbesCoverVertices
 INVARIANT LawProbesOnSegments
 INVARIANT LawSomeProbeOutside
 INVARIANT LawLimbs
+INVARIANT LawTiny
 INVARIANT LawFolded
 INVARIANT LawMonoComparable
 INVARIANT LawTypes
